@@ -25,10 +25,19 @@ def fnv64 (bs : Bytes) : UInt64 :=
 def hex64 (x : UInt64) : String :=
   String.ofList ((List.range 16).map fun i => hexDigit ((x.toNat / 16 ^ (15 - i)) % 16))
 
-/-- bytes as in the harness: hex up to 160 bytes, `#len:fnv64` above -/
+/-- bytes as in the harness: hex up to 160 bytes; above, the first 160 bytes in hex, then `~len:fnv64` of the rest -/
 def showBytes (bs : Bytes) : String :=
   if bs.length ≤ 160 then String.ofList (bs.flatMap hexByte)
-  else s!"#{bs.length}:{hex64 (fnv64 bs)}"
+  else String.ofList ((bs.take 160).flatMap hexByte) ++ s!"~{bs.length - 160}:{hex64 (fnv64 (bs.drop 160))}"
+
+/-- the clear head of a rendered byte string and the length of its hashed rest -/
+def shownHead (r : String) : Option (Bytes × Nat) :=
+  match r.splitOn "~" with
+  | [h] => (bytesOfHex h).map fun b => (b, 0)
+  | [h, t] => match bytesOfHex h, (t.splitOn ":").head?.bind (·.toNat?) with
+    | some b, some n => some (b, n)
+    | _, _ => none
+  | _ => none
 
 def stateLetter : SState → String
   | .awaitingCommand => "C" | .registered => "R" | .awaitingIdentity => "I" | .bridged => "B"
@@ -208,15 +217,34 @@ def judgeC25 (before : View) (pending : List (Nat × Bytes)) (op : Op) (l : Impl
       else if !decide (Isolation before l.view k o) then
         "viol:isolation:a client other than the sender's bridged partner received bytes"
       else if !before.isBridged k && l.view.isBridged k then
-        -- the op that established k's bridge: the partner got everything k had pending, from the identity on
+        -- the op in which k's bridge came into being, judged from what the sockets received
+        let stream := pendingOf pending k ++ p
         match l.view.partnerOf k with
         | none => "ok"
         | some t =>
-          match (l.rx.lookup t).bind fun r => if r.startsWith "#" then none else bytesOfHex r with
-          | none => "ok"                                     -- nothing readable (long payloads are hashed)
-          | some got =>
-            if decide (BridgeHandover 32 (pendingOf pending k ++ p) (afterFirstLine got)) then "ok"
-            else "viol:delivery:bytes sent with or after the identity did not all reach the new bridge partner"
+          match l.rx.lookup t with
+          | none => "viol:delivery:a bridge was established but the partner received nothing"
+          | some r =>
+            match shownHead r with
+            | none => "viol:unparsable-line"
+            | some (head, restLen) =>
+              let ann := head.takeWhile (· != 10) ++ [10]
+              if !head.contains 10 then "ok"                       -- announcement line longer than the clear head
+              else
+                let n := head.length + restLen - ann.length         -- bytes handed over after the announcement
+                let handed := stream.drop (stream.length - n)
+                if n > stream.length || !decide (BridgeHandover 32 stream handed) || showBytes (ann ++ handed) != r then
+                  "viol:delivery:bytes sent with or after the identity did not all reach the new bridge partner, in order"
+                else if !decide (BridgeDrained ((l.rbs.lookup k).getD 0)) then
+                  "viol:delivery:bytes of a bridged client are stuck in the relay"
+                else
+                  let before := stream.take (stream.length - n)     -- what k sent before its identity: commands
+                  let replies := match (l.rx.lookup k).bind shownHead with
+                    | some (h, rest) => if rest > 0 then before.length + 1 else (h.filter (· == 10)).length
+                    | none => 0
+                  if !decide (RepliesBounded ((before.filter (· == 10)).length) replies) then
+                    "viol:isolation:the relay sent its own lines to a client after that client's bridge was established"
+                  else "ok"
       else "ok"
     | .eof k | .shw k | .rst k | .hup k =>
       if !decide (Teardown before k o) then "viol:teardown:the partner of a disconnected bridged client stays connected"
